@@ -50,7 +50,7 @@ func record(s *pools.Spec, r *pools.Runner, h []pools.Op) {
 }
 
 func TestExhaustiveWithFaults(t *testing.T) {
-	depth := run.Pick(5, 7)
+	depth := run.Pick(5, 6)
 	specs := pools.SmallSpecs()
 	var wg sync.WaitGroup
 	sem := make(chan struct{}, runtime.NumCPU())
@@ -64,8 +64,8 @@ func TestExhaustiveWithFaults(t *testing.T) {
 			caps := pools.ProbeCaps(s)
 			alpha := pools.Alphabet(caps, 3, true)
 			d := depth
-			if len(alpha) > 12 && d > 6 {
-				d = 6
+			if len(alpha) > 12 && d > 5 {
+				d = 5 // thorough: 6 on the narrow alphabets, 5 on the wide ones (the alphabets grew with the out-of-range and move symbols)
 			}
 			if !run.Thorough() && len(alpha) > 15 {
 				d = 4 // quick tier: wide alphabets one level shallower (thorough goes to 6-7)
